@@ -69,6 +69,16 @@ def gen_cases(ctx):
                     body = [0] * n
                 idx = bytes([k] + body)
                 cases.append(("tokenize %s %s" % (core.hx(pw), core.hx(idx)), {"pw": pw.hex(), "idx": list(idx)}))
+    # lengths whose total passes 256 (and 512) against passwords shorter than the total but longer than the total mod 256
+    for k in (1, 2, 3):
+        for lens in ([200, 58], [255, 1], [255, 255, 3], [128, 128], [100, 100, 100], [255, 2], [1, 255], [250, 250, 20]):
+            total = sum(lens)
+            for n in sorted(set([total % 256, total % 256 + 1, total - 1, 3, 60, 255, 256, total])):
+                if n < 0:
+                    continue
+                pw = (b"abc" * 200)[:n]
+                body = lens if k != 3 else [x for l in lens for x in (l, 1)]
+                cases.append(("tokenize %s %s" % (core.hx(pw), core.hx(bytes([k] + body))), {"pw": pw.hex(), "idx": [k] + body}))
     # the empty index
     for pw in PASSWORDS:
         cases.append(("tokenize %s -" % core.hx(pw), {"pw": pw.hex(), "idx": []}))
